@@ -63,9 +63,47 @@ func c01GenCorpus(out *bufio.Writer) {
 		}
 	}
 
+	// the empty string is a value, not null ((TypeString, nil) is how it is stored)
+	mem(map[string]c01Val{"sa": c01Str("")}, nil, cmp("eq", sym("sa"), c01Lit{kind: 'n'}))
+	mem(map[string]c01Val{"sa": c01Str("")}, nil, cmp("ne", sym("sa"), c01Lit{kind: 'n'}))
+	mem(map[string]c01Val{"xa": c01Str("")}, nil, cmp("eq", sym("xa"), c01Lit{kind: 'n'}))
+	mem(nil, map[string][]c01Val{"ss": strs("")}, cmp("eq", fn("anyOf", "ss"), c01Lit{kind: 'n'}))
+	mem(nil, map[string][]c01Val{"st": strs("", "a")}, cmp("ne", fn("allOf", "st"), c01Lit{kind: 'n'}))
+	mem(map[string]c01Val{"sa": c01Str("")}, nil, cmp("eq", sym("sa"), str("")))
+	// df4edc3: no seek shortcut on a seekable set that is not string-typed (a number rendering to the compared string)
+	mem(nil, map[string][]c01Val{"sx": {c01Int64(7), c01Str("a")}}, cmp("eq", fn("anyOf", "sx"), str("7")))
+	mem(nil, map[string][]c01Val{"sn": {c01Int64(5)}}, cmp("eq", fn("anyOf", "sn"), str("5")))
+	mem(nil, map[string][]c01Val{"sx": {c01Int64(7), c01Str("a")}}, cmp("eq", fn("anyOf", "sx"), str("a")))
+	mem(nil, map[string][]c01Val{"sx": {c01Int64(7), c01Str("a")}}, cmp("eq", fn("anyOf", "sx"), num(7)))
+	// the universe with fixed tables behind the external symbols: vip(b2) = true; nick(b1) = nil,
+	// nick(b2) = "nb"; calc(b1) = 5
+	var corpusStores []c01BStore
+	for _, s := range c01Universe {
+		c := s
+		c.syms = append([]c01BSym{}, s.syms...)
+		for i, sym := range c.syms {
+			if sym.kind != "ext" {
+				continue
+			}
+			tab := &c01ExtTab{kind: sym.ext.kind, entries: map[string]c01Val{}, dflt: c01Nil()}
+			switch sym.name {
+			case "vip":
+				tab.entries["b2"] = c01Bool(true)
+				tab.dflt = c01Bool(false)
+			case "nick":
+				tab.entries["b2"] = c01Str("nb")
+				tab.dflt = c01Str("other")
+				tab.entries["b1"] = c01Nil()
+			case "calc":
+				tab.entries["b1"] = c01Int64(5)
+			}
+			c.syms[i].ext = tab
+		}
+		corpusStores = append(corpusStores, c)
+	}
 	// bolt-backed cases over the universe schema
 	ent := func(id string) *c01Entity {
-		return &c01Entity{id: id, fields: map[string]c01Val{}, sets: map[string][]c01Val{}, maps: map[string]map[string]c01Val{}}
+		return &c01Entity{id: id, fields: map[string]c01Val{}, sets: map[string][]c01Val{}, maps: map[string]*c01MNode{}}
 	}
 	a1, a2 := ent("a1"), ent("a2")
 	b1, b2 := ent("b1"), ent("b2")
@@ -73,7 +111,12 @@ func c01GenCorpus(out *bufio.Writer) {
 	a1.fields["owner"] = c01Str("b1")
 	a1.sets["groups"] = strs("b1", "b2")
 	a1.sets["roles"] = strs("x", "y")
-	a1.maps["tags"] = map[string]c01Val{"k": c01Int64(5), "on": c01Bool(true)}
+	leaf := func(v c01Val) *c01MNode { return &c01MNode{kind: 'v', val: &v} }
+	bucket := func(kids map[string]*c01MNode) *c01MNode { return &c01MNode{kind: 'b', kids: kids} }
+	a1.maps["tags"] = bucket(map[string]*c01MNode{"k": leaf(c01Int64(5)), "on": leaf(c01Bool(true)),
+		"site": bucket(map[string]*c01MNode{"name": leaf(c01Str("z")), "lst": {kind: 'l', list: []*c01MNode{leaf(c01Str("e"))}}})})
+	a1.maps["ext"] = bucket(map[string]*c01MNode{"edge": bucket(map[string]*c01MNode{"m": bucket(map[string]*c01MNode{
+		"a": bucket(map[string]*c01MNode{"b": bucket(map[string]*c01MNode{"c": leaf(c01Bool(true))})})})})})
 	a2.fields["name"] = c01Str("n2")
 	a2.sets["groups"] = strs("b2")
 	b1.fields["label"] = c01Str("L1")
@@ -84,7 +127,7 @@ func c01GenCorpus(out *bufio.Writer) {
 	b2.fields["label"] = c01Str("L2")
 	b2.fields["rank"] = c01Int64(2)
 	b2.sets["roles"] = strs("r1", "r2")
-	ds := &c01Dataset{stores: c01Universe, rows: [][]*c01Entity{{a1, a2}, {b1, b2}}}
+	ds := &c01Dataset{stores: corpusStores, rows: [][]*c01Entity{{a1, a2}, {b1, b2}, {}, {}}}
 	bolt := func(root int, f *c01Node) {
 		out.WriteString(c01BoltLine(ds, root, f))
 		out.WriteByte('\n')
@@ -109,6 +152,24 @@ func c01GenCorpus(out *bufio.Writer) {
 	bolt(0, cmp("ne", fn("anyOf", "roles"), str("x")))
 	bolt(0, cmp("eq", sym("tags.k"), num(5)))
 	bolt(0, cmp("eq", sym("tags.on"), c01Lit{kind: 'b', b: true}))
+	// the empty string is a value, not null: rowCursorImpl.IsNil goes by the stored type
+	a2.fields["alias"] = c01Str("")
+	a2.sets["roles"] = strs("", "z")
+	bolt(0, cmp("eq", sym("alias"), c01Lit{kind: 'n'}))
+	bolt(0, cmp("ne", sym("alias"), c01Lit{kind: 'n'}))
+	bolt(0, cmp("eq", sym("alias"), str("")))
+	bolt(0, cmp("eq", fn("anyOf", "roles"), c01Lit{kind: 'n'}))
+	bolt(0, cmp("ne", fn("allOf", "roles"), c01Lit{kind: 'n'}))
+	bolt(1, cmp("eq", fn("anyOf", "members.alias"), c01Lit{kind: 'n'}))
+	// nested map elements, a map symbol behind a two-bucket prefix, elements that are maps / lists / missing
+	bolt(0, cmp("eq", sym("tags.site.name"), str("z")))
+	bolt(0, cmp("eq", sym("meta.a.b.c"), c01Lit{kind: 'b', b: true}))
+	bolt(0, cmp("eq", sym("tags.site"), c01Lit{kind: 'n'}))
+	bolt(0, cmp("eq", sym("tags.site.lst"), c01Lit{kind: 'n'}))
+	bolt(0, cmp("ne", sym("tags.k.x"), c01Lit{kind: 'n'}))
+	bolt(0, cmp("eq", sym("tags.nope.x"), c01Lit{kind: 'n'}))
+	bolt(1, cmp("eq", fn("anyOf", "members.tags.site.name"), str("z")))
+	bolt(1, cmp("eq", fn("anyOf", "members.meta.a.b.c"), c01Lit{kind: 'b', b: true}))
 	bolt(0, cmp("eq", fn("anyOf", "groups.boss"), c01Lit{kind: 'n'}))
 	bolt(1, cmp("ge", fn("count", "members"), num(2)))
 	// known finding: a set followed by a linked non-set chain
@@ -118,7 +179,7 @@ func c01GenCorpus(out *bufio.Writer) {
 	c1, c2, d1 := ent("a1"), ent("a2"), ent("b1")
 	c2.fields["owner"] = c01Str("b1")
 	d1.sets["members"] = strs("a1", "a2")
-	ds = &c01Dataset{stores: c01Universe, rows: [][]*c01Entity{{c1, c2}, {d1}}}
+	ds = &c01Dataset{stores: corpusStores, rows: [][]*c01Entity{{c1, c2}, {d1}, {}, {}}}
 	bolt(1, cmp("eq", sub("count", "members.owner", &c01Node{kind: "bc", b: true}, nil, nil), num(1)))
 	bolt(1, sub("isEmpty", "members.owner", &c01Node{kind: "bc", b: true}, nil, nil))
 	bolt(1, cmp("eq", fn("count", "members.owner"), num(2)))
@@ -128,8 +189,101 @@ func c01GenCorpus(out *bufio.Writer) {
 	g1.fields["boss"] = c01Str("b2")
 	g2.fields["boss"] = c01Str("b3")
 	g3.fields["label"] = c01Str("x")
-	ds = &c01Dataset{stores: c01Universe, rows: [][]*c01Entity{{e1}, {g1, g2, g3}}}
+	ds = &c01Dataset{stores: corpusStores, rows: [][]*c01Entity{{e1}, {g1, g2, g3}, {}, {}}}
 	bolt(0, cmp("eq", sub("count", "groups.boss.boss", cmp("eq", sym("label"), str("x")), nil, nil), num(1)))
 	bolt(0, cmp("eq", fn("anyOf", "groups.boss.boss.label"), str("x")))
+	// child stores: a1 has plain-child data, a2 not; b2 has extension data, b1 not
+	p1, p2, q1, q2 := ent("a1"), ent("a2"), ent("b1"), ent("b2")
+	k1, x2 := ent("a1"), ent("b2")
+	p1.fields["name"] = c01Str("n1")
+	p1.fields["alias"] = c01Str("pa")
+	p1.sets["kids"] = strs("a1", "a2")
+	p1.fields["kidref"] = c01Str("a2")
+	p2.fields["name"] = c01Str("n2")
+	p2.fields["kidref"] = c01Str("a1")
+	p2.maps["ext"] = bucket(map[string]*c01MNode{"edge": bucket(map[string]*c01MNode{"m": bucket(map[string]*c01MNode{"k": leaf(c01Int64(7))})})})
+	k1.fields["level"] = c01Int64(5)
+	k1.fields["alias"] = c01Str("ka")
+	k1.fields["name"] = c01Str("kn")
+	q1.fields["label"] = c01Str("L1")
+	q1.sets["exts"] = strs("b1", "b2")
+	q2.fields["label"] = c01Str("L2")
+	x2.fields["note"] = c01Str("x")
+	ds = &c01Dataset{stores: corpusStores, rows: [][]*c01Entity{{p1, p2}, {q1, q2}, {k1}, {x2}}}
+	tr := &c01Node{kind: "bc", b: true}
+	bolt(2, tr)                                       // plain child store: only a1
+	bolt(3, tr)                                       // extended child store: b1 and b2
+	bolt(3, cmp("eq", sym("note"), c01Lit{kind: 'n'})) // b1 has no extension data
+	bolt(2, cmp("eq", sym("name"), str("n1")))        // own `name` registered before GrantSymbols: the parent's wins
+	bolt(2, cmp("eq", sym("alias"), str("ka")))       // own `alias` registered after: the child's wins
+	bolt(2, cmp("eq", sym("m.k"), c01Lit{kind: 'n'}))  // the parent's map symbol `meta` is inherited under its key `m`
+	bolt(0, cmp("eq", sub("count", "kids", tr, nil, nil), num(1)))  // a2 is linked but has no child data
+	bolt(0, cmp("eq", fn("count", "kids"), num(2)))
+	bolt(0, cmp("eq", sym("kidref.level"), num(5)))
+	bolt(0, cmp("eq", sym("kidref.name"), str("n2")))
+	bolt(1, cmp("eq", sub("count", "exts", tr, nil, nil), num(2))) // extended: rows without extension data count
+	bolt(1, cmp("eq", sub("count", "exts", cmp("eq", sym("note"), c01Lit{kind: 'n'}), nil, nil), num(1)))
+	// sort by inside a sub-query: validated and typed, never consulted by the scanner
+	ds = &c01Dataset{stores: corpusStores, rows: [][]*c01Entity{{a1, a2}, {b1, b2}, {}, {}}}
+	two := int64(2)
+	sorted := func(q *c01Node, skip, limit *int64, fields ...c01Sort) *c01Node {
+		n := sub("count", "groups", q, skip, limit)
+		n.sort = fields
+		return n
+	}
+	bolt(0, cmp("eq", sorted(tr, nil, &one, c01Sort{"label", "desc"}), num(1)))
+	bolt(0, cmp("eq", sorted(tr, &one, nil, c01Sort{"rank", ""}, c01Sort{"label", "asc"}), num(1)))
+	bolt(0, cmp("eq", sorted(cmp("ne", sym("label"), str("zz")), &one, &two, c01Sort{"label", "desc"}), num(1)))
+	bolt(0, cmp("eq", sorted(tr, nil, nil, c01Sort{"nosuch", ""}), num(2)))              // unknown sort field: rejected
+	bolt(0, cmp("eq", sorted(tr, nil, nil, c01Sort{"roles", ""}), num(2)))               // a set symbol as sort field: accepted (flag still set)
+	bolt(0, cmp("eq", sorted(cmp("eq", fn("count", "roles"), num(1)), nil, nil, c01Sort{"roles", ""}), num(1))) // ... rejected after a set function
+	bolt(0, cmp("eq", sorted(tr, nil, nil, c01Sort{"tags.k", "desc"}), num(2)))          // any-typed sort field: accepted
+	// custom symbols: external functions and mapped symbols.  a1 -> boss a2, owner b1; a2 -> groups {b1, b2},
+	// owner b2; a3 has no owner
+	u1, u2, u3, v1, v2 := ent("a1"), ent("a2"), ent("a3"), ent("b1"), ent("b2")
+	u1.fields["boss"] = c01Str("a2")
+	u1.fields["owner"] = c01Str("b1")
+	u1.fields["mowner"] = c01Str("b1")
+	u1.fields["fx"] = c01Bool(true)
+	u2.fields["owner"] = c01Str("b2")
+	u2.sets["groups"] = strs("b1", "b2")
+	v1.fields["mlab"] = c01Str("x")
+	v1.fields["label"] = c01Str("x")
+	v2.fields["mlab"] = c01Str("y")
+	v2.fields["mrank"] = c01Int64(3)
+	ds = &c01Dataset{stores: corpusStores, rows: [][]*c01Entity{{u1, u2, u3}, {v1, v2}, {}, {}}}
+	tt, ff := c01Lit{kind: 'b', b: true}, c01Lit{kind: 'b', b: false}
+	null := c01Lit{kind: 'n'}
+	bolt(1, cmp("eq", sym("vip"), tt))
+	bolt(1, sym("vip"))
+	bolt(1, cmp("eq", sym("nick"), str("nb")))
+	bolt(1, cmp("eq", sym("calc"), num(5)))
+	bolt(1, cmp("eq", sym("calc"), null))
+	bolt(1, cmp("eq", sym("mlabel"), str("Mx")))
+	bolt(1, cmp("eq", sym("mrank"), null))                 // NotNilStringMapper: a null rank reads as ""
+	bolt(1, cmp("eq", sym("mrank"), num(3)))
+	bolt(0, cmp("eq", sym("flagx"), ff))                   // the negating mapper
+	bolt(0, cmp("eq", sym("mowner"), str("b1")))
+	bolt(0, cmp("eq", sym("mowner"), str("")))
+	bolt(0, cmp("eq", sym("mowner.label"), str("x")))      // a mapped fk symbol cannot be followed: unknown symbol
+	bolt(0, cmp("eq", sym("owner.mlabel"), str("Mx")))
+	bolt(0, cmp("eq", fn("anyOf", "groups.mlabel"), str("My")))
+	bolt(0, cmp("eq", fn("anyOf", "groups.vip"), tt))
+	bolt(0, cmp("eq", sym("owner.vip"), tt))
+	// 5f6f9bb: the tail of set.custom survives a further link; fce0761: a nil string function is null;
+	// open finding: an external function behind a null link is evaluated on ""
+	bolt(0, cmp("eq", fn("anyOf", "boss.groups.vip"), tt))
+	bolt(0, cmp("eq", fn("anyOf", "boss.groups.mlabel"), str("b1")))
+	bolt(1, cmp("eq", sym("nick"), null))
+	bolt(1, cmp("eq", sym("nick"), str("")))
+	bolt(0, cmp("eq", sym("owner.vip"), ff))
+	// df4edc3: ... and no seek shortcut over an any-typed bucket that holds a number
+	u1.sets["mixed"] = c01SortSet([]c01Val{c01Int64(7), c01Str("a")})
+	u1.sets["nums"] = c01SortSet([]c01Val{c01Int64(5)})
+	bolt(0, cmp("eq", fn("anyOf", "mixed"), str("7")))
+	bolt(0, cmp("eq", fn("anyOf", "nums"), str("5")))
+	bolt(0, cmp("eq", fn("anyOf", "mixed"), str("a")))
+	bolt(0, cmp("eq", fn("anyOf", "nums"), num(5)))
+	bolt(0, cmp("contains", fn("anyOf", "mixed"), str("7")))
 	_ = ast.NodeTypeString
 }
